@@ -13,6 +13,8 @@
 //! reference verifies and the client-side `TSigVerifier` accepts; every mutated reply is rejected
 //! by a fresh `TSigVerifier` unless the reference accepts it too. No panic on either side.
 
+mod clientpath;
+
 use std::collections::HashMap;
 
 use hickory_net::xfer::Protocol;
@@ -620,34 +622,119 @@ fn run_case(w: &mut Worker, c: &Case, l: &mut Local) -> Option<(Vec<u8>, Vec<u8>
     None
 }
 
-/// Reply side: every single-bit flip / byte substitution / truncation of the reply to an honest,
-/// accepted exchange is fed to a fresh client-side verifier.
+/// One way of tampering with a reply (positions refer to the honest reply, whose length does not
+/// depend on the message id).
+#[derive(Clone, Debug)]
+enum Recipe {
+    Identity,
+    Flip(usize, u8),
+    Sub(usize, u8),
+    Trunc(usize),
+    Extend,
+    /// section count `ci` (0 = qd .. 3 = ar) set to variant 0: -1, 1: +1, 2: 0, 3: 65535
+    Count(usize, u8),
+    /// the TSIG RR removed, ARCOUNT lowered
+    StripTsig,
+    /// the TSIG RR appended a second time
+    SecondTsig,
+    /// a fabricated unsigned NOERROR reply with the right id and question
+    ForgedUnsigned,
+}
+
+fn recipes(len: usize) -> Vec<Recipe> {
+    let mut v = vec![Recipe::Identity];
+    for i in 0..len {
+        for bit in 0..8 {
+            v.push(Recipe::Flip(i, bit));
+        }
+        for x in [0x00u8, 0xff] {
+            v.push(Recipe::Sub(i, x));
+        }
+    }
+    for n in 0..len {
+        v.push(Recipe::Trunc(n));
+    }
+    v.push(Recipe::Extend);
+    for ci in 0..4 {
+        for var in 0..4 {
+            v.push(Recipe::Count(ci, var));
+        }
+    }
+    v.extend([Recipe::StripTsig, Recipe::SecondTsig, Recipe::ForgedUnsigned]);
+    v
+}
+
+/// The tampered reply and its mutation class; None if the recipe changes nothing.
+fn apply_recipe(r: &Recipe, reply: &[u8], request: &[u8], reg: &Regions) -> Option<(String, Vec<u8>)> {
+    let mut b = reply.to_vec();
+    match r {
+        Recipe::Identity => Some(("identity".into(), b)),
+        Recipe::Flip(i, bit) => {
+            b[*i] ^= 1 << bit;
+            let rg = reg.at(*i);
+            Some((if rg == "header.flags" { format!("bit-flip@header.flags.{}", flag_bit_name(*i, *bit)) } else { format!("bit-flip@{rg}") }, b))
+        }
+        Recipe::Sub(i, v) => {
+            if b[*i] == *v {
+                return None;
+            }
+            b[*i] = *v;
+            Some((format!("byte-sub@{}", reg.at(*i)), b))
+        }
+        Recipe::Trunc(n) => Some((format!("truncate@{}", reg.at(*n)), reply[..*n].to_vec())),
+        Recipe::Extend => {
+            b.push(0);
+            Some(("extend:bytes-after-tsig".into(), b))
+        }
+        Recipe::Count(ci, var) => {
+            let p = 4 + 2 * ci;
+            let cur = u16::from_be_bytes([b[p], b[p + 1]]);
+            let v = match var {
+                0 => cur.wrapping_sub(1),
+                1 => cur.wrapping_add(1),
+                2 => 0,
+                _ => 65535,
+            };
+            if v == cur {
+                return None;
+            }
+            b[p..p + 2].copy_from_slice(&v.to_be_bytes());
+            // lowering ARCOUNT by one turns the TSIG RR into trailing bytes: the reply has no TSIG
+            let name = ["qdcount", "ancount", "nscount", "arcount"][*ci];
+            Some((if *ci == 3 && *var == 0 { "arcount-lowered:tsig-becomes-trailing-bytes".to_string() } else { format!("count-edit@header.{name}") }, b))
+        }
+        Recipe::StripTsig => {
+            let s = rt::split(reply).ok()?;
+            Some(("tsig-stripped".into(), rt::strip(reply, &s)))
+        }
+        Recipe::SecondTsig => {
+            let s = rt::split(reply).ok()?;
+            b.extend_from_slice(&s.tsig.encode());
+            let ar = u16::from_be_bytes([b[10], b[11]]) + 1;
+            b[10..12].copy_from_slice(&ar.to_be_bytes());
+            Some(("second-tsig".into(), b))
+        }
+        Recipe::ForgedUnsigned => {
+            // the request echoed without its TSIG, turned into a NOERROR response
+            let s = rt::split(request).ok()?;
+            let mut f = rt::strip(request, &s);
+            f[2] |= 0x80;
+            f[3] &= 0xf0;
+            Some(("forged-unsigned-reply".into(), f))
+        }
+    }
+}
+
+/// Reply side, direct family: every tampered reply to an honest, accepted exchange is fed to a
+/// fresh client-side `TSigVerifier`.
 fn run_reply_mutants(c: &Case, reply: &[u8], req_mac: &[u8], l: &mut Local) {
     let key = Key::new("k1.", c.alg, vupd::KEY1);
     let reg = Regions::of(reply);
-    let mut ms: Vec<(String, Vec<u8>)> = vec![];
-    for i in 0..reply.len() {
-        for bit in 0..8u8 {
-            let mut b = reply.to_vec();
-            b[i] ^= 1 << bit;
-            let r = reg.at(i);
-            ms.push((if r == "header.flags" { format!("bit-flip@header.flags.{}", flag_bit_name(i, bit)) } else { format!("bit-flip@{r}") }, b));
+    for r in recipes(reply.len()) {
+        let Some((class, bytes)) = apply_recipe(&r, reply, &c.bytes, &reg) else { continue };
+        if class == "identity" {
+            continue;
         }
-        for v in [0x00u8, 0xff] {
-            if reply[i] != v {
-                let mut b = reply.to_vec();
-                b[i] = v;
-                ms.push((format!("byte-sub@{}", reg.at(i)), b));
-            }
-        }
-    }
-    for n in 0..reply.len() {
-        ms.push((format!("truncate@{}", reg.at(n)), reply[..n].to_vec()));
-    }
-    let mut b = reply.to_vec();
-    b.push(0);
-    ms.push(("extend:bytes-after-tsig".into(), b));
-    for (class, bytes) in ms {
         l.eval();
         let mut v = client_verifier(c.kind, c.alg, c.fudge, c.time);
         let got = catch(|| v.verify(&bytes).is_ok());
@@ -668,6 +755,83 @@ fn run_reply_mutants(c: &Case, reply: &[u8], req_mac: &[u8], l: &mut Local) {
             Ok(true) => l.outcome("reply-mutant:accepted-by-both"),
             Ok(false) if want.is_ok() => l.outcome("reply-mutant:rejected-by-client-only(allowed)"),
             Ok(false) => l.outcome("reply-mutant:rejected"),
+        }
+    }
+}
+
+/// Reply side through the REAL client transports (`path` = "multiplexer" | "udp-client"): the
+/// transport signs the request itself; for every recipe the real server answers exactly those
+/// bytes and the tampered reply is delivered from the server's address. The caller may get
+/// `Ok(response)` only if the reference verifier accepts the delivered bytes.
+fn run_client_path(w: &mut Worker, kind: Kind, alg: Alg, fudge: u16, path: &str, l: &mut Local) {
+    let handle = w.rt.handle().clone();
+    let _guard = handle.enter();
+    vsim::set_unix(T0);
+    let signer = vupd::signer("k1.", vupd::KEY1, alg_h(alg), fudge);
+    let mut cp = if path == "multiplexer" { clientpath::ClientPath::Mux(clientpath::MuxPath::new(signer)) } else { clientpath::ClientPath::Udp(clientpath::UdpPath::new(signer)) };
+    let key = Key::new("k1.", alg, vupd::KEY1);
+    let kname = if kind.is_update() { "update" } else { "axfr" };
+    let case = |class: &str, request: &[u8], reply: &[u8]| {
+        json!({"client_path": path, "kind": kind.name(), "alg": alg_name(alg), "fudge": fudge, "time_signed": T0, "reply_mutation": class,
+               "request_hex": hex::enc(request), "delivered_reply_hex": hex::enc(reply)})
+    };
+    // one honest exchange: the transport's own signed request, answered by the real server
+    let exchange = |w: &mut Worker, cp: &mut clientpath::ClientPath| -> Result<(Vec<u8>, Vec<u8>), String> {
+        vsim::set_unix(T0);
+        let request = cp.send(unsigned_message(kind))?;
+        let obs = run_request(w, 0, alg, 2, T0, &request);
+        if let Some((m, _)) = obs.panic {
+            return Err(format!("server panic: {m}"));
+        }
+        let reply = obs.replies.and_then(|r| r.into_iter().next()).ok_or("no reply from the server")?;
+        let answers = wire::read_header(&reply).map(|h| h.an).unwrap_or(0);
+        if !(obs.changed || answers > 0) {
+            return Err("the transport's own signed request was not accepted by the server".into());
+        }
+        Ok((request, reply))
+    };
+    let (_, probe) = match exchange(w, &mut cp) {
+        Ok(x) => x,
+        Err(e) => {
+            l.violation(&format!("honest-request-via-{path}-not-accepted"), &e, || case("identity", &[], &[]));
+            return;
+        }
+    };
+    let reg = Regions::of(&probe);
+    for r in recipes(probe.len()) {
+        let (request, reply) = match exchange(w, &mut cp) {
+            Ok(x) => x,
+            Err(e) => {
+                l.outcome(&format!("machinery:client-path-exchange-failed:{e}"));
+                continue;
+            }
+        };
+        if reply.len() != probe.len() {
+            l.outcome("machinery:honest-reply-length-varies");
+            continue;
+        }
+        let Some((class, bytes)) = apply_recipe(&r, &reply, &request, &reg) else { continue };
+        l.eval();
+        let req_mac = rt::split(&request).map(|s| s.tsig.mac).unwrap_or_default();
+        let want = rt::verify_response(&bytes, &key, T0, &req_mac);
+        let got = catch(|| cp.deliver(&bytes));
+        match got {
+            Err(p) => l.violation(&panic_key(path, &p.msg, &p.loc), &format!("the client transport panicked on a delivered reply ({class}): {}", p.msg), || case(&class, &request, &bytes)),
+            Ok(clientpath::Delivered::Ok) if want.is_err() => l.violation(
+                &format!("modified-reply-accepted-via-{path}:{kname}:{}", key_scene(&class)),
+                &format!("a signing client ({path}) hands a reply to its caller as Ok although the reference verifier rejects the delivered bytes ({class}): {want:?}"),
+                || case(&class, &request, &bytes),
+            ),
+            Ok(clientpath::Delivered::Ok) => l.outcome(&format!("via-{path}:delivered-and-reference-accepts")),
+            Ok(d) => {
+                if class == "identity" {
+                    l.violation(&format!("honest-reply-not-accepted-via-{path}"), &format!("the genuine signed reply did not reach the caller as Ok: {d:?}"), || case(&class, &request, &bytes));
+                } else if want.is_ok() {
+                    l.outcome(&format!("via-{path}:not-delivered-although-reference-accepts(allowed)"));
+                } else {
+                    l.outcome(&format!("via-{path}:not-delivered"));
+                }
+            }
         }
     }
 }
@@ -744,11 +908,19 @@ struct Group {
 }
 
 fn main() {
+    // a stack overflow / abort in the code under test must become a verdict, not a dead check
+    vcore::supervise("C13");
     let ctx = Ctx::from_args("C13", "fault_enumeration");
     let thorough = !ctx.quick();
 
     if let Some((_key, case)) = ctx.replay_case() {
         let mut w = Worker::new();
+        if let Some(path) = case["client_path"].as_str() {
+            // the whole reply family of that honest exchange through that transport
+            let (kind, alg, fudge) = (Kind::from_name(case["kind"].as_str().unwrap_or("")), alg_from(case["alg"].as_str().unwrap_or("")), case["fudge"].as_u64().unwrap_or(300) as u16);
+            ctx.with_local(|l| run_client_path(&mut w, kind, alg, fudge, path, l));
+            ctx.finish(false);
+        }
         let c = Case::from_json(&case);
         ctx.with_local(|l| {
             let r = run_case(&mut w, &c, l);
@@ -788,8 +960,12 @@ fn main() {
          requests; UPDATE-derived mutants run under AllowSigned). Part B (valid MAC, clock arithmetic): the unmodified requests x (time signed, \
          server clock) with time signed in {1.7e9, 2^33+k, 0, 1, F-1, F, F+1, 2F+1, 2^16-1, 2^16, 2^32-1, 2^32, 2^32+1, 2^48-1-F, 2^48-1, ...} and \
          clock - time signed in the window set plus +-(2^15, 2^16, 2^17, 2^31, 2^32, 2^33) +- {0, 1, F, F+1}. Part C (reply side): every single-bit \
-         flip, byte substitution {00,ff}, truncation and extension of the reply to every honest accepted exchange, fed to a fresh client-side \
-         TSigVerifier. Oracle: effect (zone changed / AXFR answers under AllowSigned) only if vref::tsig accepts the mutated bytes under the \
+         flip, byte substitution {00,ff}, truncation, extension, section-count edit {-1,+1,0,65535}, TSIG stripped, second TSIG and a forged \
+         unsigned NOERROR reply with the right id, for the reply to every honest accepted exchange, fed to a fresh client-side TSigVerifier. \
+         Part D: the same reply family through the real client transports - DnsMultiplexer::with_signer over a scripted DnsClientStream and \
+         UdpClientStream::with_signer over a scripted socket: the transport signs the request itself, the real server answers exactly those \
+         bytes (a fresh exchange per tampered reply), the tampered reply is delivered from the server's address; the caller may receive \
+         Ok(response) only if vref::tsig (response variant, request-MAC chaining) accepts the delivered bytes, and must receive the genuine one. Oracle: effect (zone changed / AXFR answers under AllowSigned) only if vref::tsig accepts the mutated bytes under the \
          configured keys at that clock; no AXFR data under Deny; accepted => reply verifies with the reference and with the client verifier; \
          modified reply accepted by the client only if the reference accepts it; no panic. Non-trivial = distinct (bytes, key set, clock) that \
          still parse as a message with a correctly placed trailing TSIG.",
@@ -895,7 +1071,26 @@ fn main() {
         l.outcome_sample("sample:honest-reply", || json!({"case": c.json(), "reply": hex::enc(reply)}));
     });
 
+    // ---- part D: the same reply family through the real client transports
+    let mut paths: Vec<(Kind, Alg, u16, &str)> = vec![];
+    for (c, _, _) in &acc {
+        if c.policy == 2 {
+            for p in ["multiplexer", "udp-client"] {
+                paths.push((c.kind, c.alg, c.fudge, p));
+            }
+        }
+    }
+    ctx.set("client_path_families", json!(paths.len()));
+    ctx.par_run_init(paths.len() as u64, 1, |_| Worker::new(), |i, l, w| {
+        let (kind, alg, fudge, p) = paths[i as usize];
+        run_client_path(w, kind, alg, fudge, p, l);
+    });
+
     for class in [
+        "via-multiplexer:delivered-and-reference-accepts",
+        "via-multiplexer:not-delivered",
+        "via-udp-client:delivered-and-reference-accepts",
+        "via-udp-client:not-delivered",
         "reference-accepts:took-effect",
         "reference-rejects:no-effect",
         "ref:bad-sig",
